@@ -1,7 +1,9 @@
 (** C12 - chase_work_stealing_deque: property theorems (statements only; proofs live in Proof/).
     [get_entry], [grow], [find_last_bit_set] are GENERATED from the C++ source on every run. *)
 From Coq Require Import NArith List.
-From XV Require Import Base.Word gen.UtilsGen gen.GrowingArrayGen Model.ChaseDefs Proof.UtilsGenOk Proof.ChaseIndex.
+Import ListNotations.
+From Coq Require Import Permutation.
+From XV Require Import Base.Word Conc.Lts gen.UtilsGen gen.GrowingArrayGen Model.ChaseDefs Proof.UtilsGenOk Proof.ChaseIndex Proof.ChaseInv.
 Local Open Scope N_scope.
 
 (** the loop of utils::find_last_bit_set, as generated from the source, computes the bit length *)
@@ -59,3 +61,51 @@ Theorem C12_lower_half_shared : forall k cap idx,
   1 <= k <= 29 -> cap = 2 ^ k -> idx mod (2 * cap) < cap -> get_entry idx (2 * cap) = get_entry idx cap.
 Proof. exact get_entry_lower_half. Qed.
 Print Assumptions C12_lower_half_shared.
+
+(** ------------------------------------------------------------------------------------------------
+    Concurrent layer (fixed_size_circular_array): one owner, ANY number of thieves, every interleaving.
+    [plen st < 2^62]: fewer than 2^62 try_push calls completed (no counter wrap).
+    [abs c st]: the values at the live indices [top, logical bottom); equals [live st c] when all threads are idle. *)
+
+(** MAIN RESULT: conservation = exactly-once hand-out.  The multiset of values handed out by
+    try_pop/try_steal together with the values still in the deque equals the multiset accepted by try_push *)
+Theorem C12_fixed_conservation : forall k c st,
+  c = 2 ^ k -> 1 <= k <= 30 ->
+  reach (init (Fixed c)) (step (Fixed c)) st -> plen st < 2 ^ 62 ->
+  Permutation (g_taken st ++ abs c st) (g_pushed st).
+Proof. exact chase_fixed_conservation. Qed.
+Print Assumptions C12_fixed_conservation.
+
+Theorem C12_fixed_conservation_quiescent : forall k c st,
+  c = 2 ^ k -> 1 <= k <= 30 ->
+  reach (init (Fixed c)) (step (Fixed c)) st -> plen st < 2 ^ 62 ->
+  (forall t, th st t = Idle) -> Permutation (g_taken st ++ live st c) (g_pushed st).
+Proof. exact chase_fixed_conservation_quiescent. Qed.
+Print Assumptions C12_fixed_conservation_quiescent.
+
+(** no item is handed out twice, and nothing handed out is still inside *)
+Theorem C12_fixed_no_duplicate : forall k c st,
+  c = 2 ^ k -> 1 <= k <= 30 ->
+  reach (init (Fixed c)) (step (Fixed c)) st -> plen st < 2 ^ 62 ->
+  NoDup (g_pushed st) ->
+  NoDup (g_taken st) /\ NoDup (abs c st) /\ (forall x, In x (g_taken st) -> ~ In x (abs c st)).
+Proof. exact chase_fixed_no_duplicate. Qed.
+Print Assumptions C12_fixed_no_duplicate.
+
+(** a thief about to CAS top from t holds exactly the element at index t (if top is still t) *)
+Theorem C12_fixed_thief_read : forall k c st th_id t x,
+  c = 2 ^ k -> 1 <= k <= 30 ->
+  reach (init (Fixed c)) (step (Fixed c)) st -> plen st < 2 ^ 62 ->
+  th st th_id = St5 t x ->
+  t <= top (sh st) /\
+  (top (sh st) = t -> t < lbot (bottom (sh st)) (th st owner) /\ x = mem (sh st) 0 (N.land t (c - 1))).
+Proof. exact chase_fixed_thief_read. Qed.
+Print Assumptions C12_fixed_thief_read.
+
+(** non-vacuity: a concrete concurrent run reaches a state with a thief at its CAS *)
+Example C12_nonvacuous :
+  let acts := [Start 1%nat (OPush 7); Step 1%nat; Step 1%nat; Step 1%nat; Step 1%nat; Step 1%nat;
+               Start 2%nat OSteal; Step 2%nat; Step 2%nat; Step 2%nat; Step 2%nat] in
+  let st := fst (fst (run (step (Fixed 4)) (init (Fixed 4)) acts)) in
+  th st 2%nat = St5 0 7 /\ g_pushed st = [7].
+Proof. vm_compute. split; reflexivity. Qed.
